@@ -34,6 +34,9 @@ DOCBLOCK_TAIL = chr(10) + "#]]"
 
 
 NCP = @@NCP@@              # NA * ALEN code points for the argument texts
+DEEPD = @@DEEPD@@          # extra concrete frames (documented functions) at the BOTTOM of the definition stack: deep nesting at no path cost
+DEEPC = @@DEEPC@@          # extra concrete frames (documented classes, each the inner class of the one below) at the bottom of the class stack
+PREARGS = @@PREARGS@@      # concrete argument texts inserted after the first symbolic argument (long parameter / argument lists)
 REGION = @@REGION@@        # None | ("D3", "out") | ("D3", "in"): known-finding region subtracted from / isolated in this shard
 
 
@@ -68,6 +71,18 @@ def gamma(defs, kw, classes, pending, settings):
     st = delta.State()
     agg = DocumentationAggregator(settings)
     pairs = []
+    for i in range(DEEPD):
+        a = delta.E("function", "deep" + str(i), "", params=[], kwargs=False)
+        r = dt.FunctionDocumentation("deep" + str(i), "", [], False)
+        st.entries.append(a); agg.documented.append(r); pairs.append((a, r))
+        st.defs.append(a); agg.definition_command_stack.append(DefinitionCommand(r))
+    for i in range(DEEPC):
+        a = delta.E("class", "Deep" + str(i), "", bases=[], ctors=[], methods=[], attrs=[], inner=[])
+        r = dt.ClassDocumentation("Deep" + str(i), "", [], [], [], [], [])
+        st.entries.append(a); agg.documented.append(r); pairs.append((a, r))
+        if i > 0:
+            st.classes[-1].inner.append(a); agg.documented_classes_stack[-1].inner_classes.append(r)
+        st.classes.append(a); agg.documented_classes_stack.append(r)
     for i in range(len(defs)):
         if defs[i]:
             a = delta.E("macro" if i % 2 else "function", "g" + str(i), "", params=["p"], kwargs=kw[i])
@@ -81,7 +96,7 @@ def gamma(defs, kw, classes, pending, settings):
             a = delta.E("class", "C" + str(i), "", bases=[], ctors=[], methods=[], attrs=[], inner=[])
             r = dt.ClassDocumentation("C" + str(i), "", [], [], [], [], [])
             st.entries.append(a); agg.documented.append(r); pairs.append((a, r))
-            if i > 0 and st.classes[-1] is not None:
+            if len(st.classes) > 0 and st.classes[-1] is not None:
                 st.classes[-1].inner.append(a); agg.documented_classes_stack[-1].inner_classes.append(r)
             st.classes.append(a); agg.documented_classes_stack.append(r)
         else:
@@ -106,7 +121,10 @@ def make_args(a, ef):
         return ["NAME"] + list(a[:1]) + ["COMMAND"] + list(a[1:])
     if KIND in delta.CLOSERS:
         return []
-    return list(a)
+    a = list(a)
+    if PREARGS and len(a) >= 1:
+        a = a[:1] + list(PREARGS) + a[1:]
+    return a
 
 
 def partner(abs_e, st, agg, pairs):
@@ -133,11 +151,11 @@ def check(defs: List[bool], kw: List[bool], classes: List[bool], pending: int, d
     """
     pre: len(defs) <= MAXD and len(kw) == (len(defs) if SYMKW else 0) and len(classes) <= MAXC and 0 <= pending <= 2 and case in CASES
     pre: _argsok(cps)
-    pre: not (pending == 1 and (len(classes) == 0 or not classes[-1]))
+    pre: not (pending == 1 and ((len(classes) == 0 and DEEPC == 0) or (len(classes) > 0 and not classes[-1])))
     pre: not (pending != 0 and (KIND not in ("function", "macro") or documented))
-    pre: not (KIND in ("endfunction", "endmacro") and len(defs) == 0)
-    pre: not (KIND == "cpp_end_class" and len(classes) == 0)
-    pre: not (KIND in ("cpp_attr", "cpp_member", "cpp_constructor") and len(classes) == 0)
+    pre: not (KIND in ("endfunction", "endmacro") and len(defs) + DEEPD == 0)
+    pre: not (KIND == "cpp_end_class" and len(classes) + DEEPC == 0)
+    pre: not (KIND in ("cpp_attr", "cpp_member", "cpp_constructor") and len(classes) + DEEPC == 0)
     pre: not (documented and KIND in ("endfunction", "endmacro", "cpp_end_class", "cmake_parse_arguments"))
     pre: (len(flags) == 10) if SYMFLAGS else (len(flags) == 0)
     pre: hc.cps_ok(fcps, bad=(10, 13)) if FREE else fcps == (0,)
